@@ -10,6 +10,7 @@ _NAMES = {
     'solver_labels': 'solver',
     'multi': 'multi',
     'frame': 'frame',
+    'frame_labels': 'frame',
     'tracer': 'tracer',
     'container': 'container',
     'copies': 'container',
